@@ -92,11 +92,12 @@ def plan_for(seed: int) -> P.BoardPlan:
     return P.BoardPlan('adm-1', SEATS[seed % 4], ['None', 'NS', 'EW', 'Both'][seed % 4], scen.deal_from_seed(seed), ['Pass'] * 4)
 
 
-def client_script(req, verdict: str, final_table, plan: P.BoardPlan):
+def client_script(req, verdict: str, final_table, plan: P.BoardPlan, hold: bool = False):
     seat, team, ver = req
     it = [('send', P.connect_line(seat, team, ver))]
     if verdict == 'error':
-        return it + [('recv', 'seated', ('error',)), ('eof',)]
+        # a refused peer either reads to the end of the stream and lets go, or holds on to its socket until the session is over
+        return it + [('recv', 'seated', ('error',)), ('hold',) if hold else ('eof',)]
     nt = P.DEFAULT_NOTATION
     it += [('recv', 'seated', ('seated', seat, team)), ('send', f'{P.FORMAL[seat]} ready for teams'),
            ('recv', 'teams', ('teams', final_table['N'], final_table['E'])), ('send', f'{P.FORMAL[seat]} ready to start')]
@@ -106,7 +107,8 @@ def client_script(req, verdict: str, final_table, plan: P.BoardPlan):
 
 
 def sequential_item(args) -> Counter:
-    reqs, seed, idx_tested = args
+    reqs, seed, idx_tested = args[:3]
+    hold = len(args) > 3 and args[3]
     c = Counter()
     plan = plan_for(seed)
     verdicts, table = run_reference(reqs)
@@ -115,8 +117,8 @@ def sequential_item(args) -> Counter:
     for i, (r, v) in enumerate(zip(reqs, verdicts)):
         if v == 'ignored':
             continue
-        clients.append(session.ClientSpec(f'c{i}-{r[0]}{TEAMS.index(r[1])}v{r[2]}', r[0], client_script(r, v, table, plan), gate=i))
-    rp = {'kind': 'admission-seq', 'requests': [list(r) for r in reqs], 'seed': seed}
+        clients.append(session.ClientSpec(f'c{i}-{r[0]}{TEAMS.index(r[1])}v{r[2]}', r[0], client_script(r, v, table, plan, hold), gate=i))
+    rp = {'kind': 'admission-seq', 'requests': [list(r) for r in reqs], 'seed': seed, 'hold': bool(hold)}
     x = world.execute(session.scripted_setup([plan], clients), prims.Policy(), horizon=500_000)
     if x.status == 'internal':
         raise prims.InternalError(str(x.detail))
@@ -124,7 +126,7 @@ def sequential_item(args) -> Counter:
     c.inc('steps', x.nsteps)
     c.inc('points', len(x.points))
     tested = reqs[idx_tested]
-    tag = f'{verdicts[idx_tested]}-{"v17" if tested[2] != 18 else "v18"}'
+    tag = f'{verdicts[idx_tested]}-{"v17" if tested[2] != 18 else "v18"}{"-refused-peer-holds-its-socket" if hold else ""}'
     judge_common(x, c, rp, tag, reqs, verdicts, [cl.name for cl in clients])
     c.see('cls', (tuple(sorted((s, t) for s, t in run_reference(reqs[:idx_tested])[1].items() if t is not None)), tested))
     return c
@@ -172,6 +174,8 @@ def sequential_items(seed: int, tier: str):
                 t2[r[0]] = r[1]
             reqs = hist + [r] + completing(t2)
             items.append((reqs, seed, len(hist)))
+            if v == 'error':
+                items.append((reqs, seed, len(hist), True))
     # refusals in a row, and a refusal as the very last arrival before the table fills up
     extra = [[('N', TEAMS[0], 17), ('N', TEAMS[0], 17), ('N', TEAMS[0], 18), ('N', TEAMS[1], 18), ('S', TEAMS[1], 18), ('S', TEAMS[0], 18), ('E', TEAMS[0], 18),
               ('E', TEAMS[1], 18), ('W', TEAMS[1], 17), ('W', TEAMS[0], 18)]]
@@ -271,7 +275,7 @@ def run(tier, seed, workers):
         'execution_outcomes': sorted(tot.sets.get('status', [])),
         'rule': 'sequential: BFS over the seat tables reachable with three team names, one of them the empty string (100 states); in each state that is not full each of the 24 request types (4 seats x 3 teams x versions 18/17) is '
                 'executed on the real server as <history> + <request> + <completing requests>, clients arriving one after the other, followed by one passed-out board; strict transcript players: every verdict, '
-                'team line, board conversation and End of session compared with the reference; refused connections must be closed.  Concurrent: 4 client sets of 5-6 peers started at once, all schedules '
+                'team line, board conversation and End of session compared with the reference; refused connections must be closed (each refusal both with a peer that reads to end-of-stream and lets go, and with a peer that holds on to its socket until the session is over).  Concurrent: 4 client sets of 5-6 peers started at once, all schedules '
                 'with <= d deviations, verdicts/teams judged against the reference run on the accept order observed',
         'samples': [{'state': {'N': 'Alpha', 'E': None, 'S': None, 'W': 'Beta B'}, 'request': ['S', 'Beta B', 18], 'expected': 'error (partner has another team name)'},
                     {'concurrent': [['N', 'Alpha', 18], ['E', 'Beta B', 18], ['S', 'Alpha', 18], ['W', 'Beta B', 18], ['S', 'Beta B', 18]], 'schedules': '<= d deviations'}],
@@ -286,7 +290,7 @@ def replay(d):
     c = Counter()
     reqs = [tuple(r) for r in d['requests']]
     if d['kind'] == 'admission-seq':
-        c = sequential_item((reqs, d['seed'], 0))
+        c = sequential_item((reqs, d['seed'], 0, d.get('hold', False)))
     else:
         ctx = concurrent_ctx(reqs, d['seed'])
         x = explore.run_once(ctx, d['choices'])
